@@ -246,7 +246,7 @@ Predict(r, k, e, c, inp, more) ==
            THEN <<-1, <<D(r, k, "choice", <<"chosen opcode differs from EntropyModel (enabled list in table order, index drawn from the input)", pred, e.op>>)>>>>
            ELSE IF e.op \in IntLikeOps /\ lexd'.known /\ lexd'.op # IntVariant(mc, inp, d[2])
            THEN <<-1, <<D(r, k, "int-variant", <<"integer variant differs from EntropyModel", IntVariant(mc, inp, d[2]), lexd'.op>>)>>>>
-           ELSE <<EmitConsume(mc, e.op, inp, d[2], nk, nk1), <<>>>>
+           ELSE <<EmitConsume(mc, e.op, inp, d[2], nk, nk1, c.muts, c.rate), <<>>>>
     ELSE <<cur, <<>>>>
 
 (* the step proper plus the entropy prediction (its drift findings are reported with the
